@@ -122,6 +122,10 @@ def cases(rng):
                                                                 "fail_threshold": ("param", 0.5), "test_period": ("param", 3700),
                                                                 "min_obs": ("param", 2),
                                                                 "check_type": ("param", rng.choice(["std", "range"]))}),
+        ("attenuated-window-frac", "qartod.attenuated_signal_test", {"inp": D, "tinp": ("time", gen.regular(n, 1, t0=t[0])),
+                                                                     "suspect_threshold": ("param", 2 + OFF * 0), "fail_threshold": ("param", 0.5),
+                                                                     "test_period": ("param", rng.choice([2.5, 3.5, 2.0005])),
+                                                                     "min_obs": ("param", 2), "check_type": ("param", rng.choice(["std", "range"]))}),
         ("climatology", "qartod.climatology_test", {
             "config": ("param", [{"tspan": ("2021-03-01T00:00:00", "2021-03-01T02:00:00"), "vspan": (0 + OFF, 2 + OFF), "fspan": [-2 + OFF, 4 + OFF]},
                                  {"tspan": [3, 4], "period": "month", "vspan": [-1 + OFF, 1 + OFF], "zspan": (1, 4)}]),
@@ -188,7 +192,7 @@ def build(roles, vary=None, how=None, func=None):
             c = how if mine else "dt64ns"
             if c in ("epoch-int", "epoch-float", "epoch-list"):
                 return None  # numbers would be numbers, not times, to valid_range_test
-            if c in ("dtindex-utc", "series-utc"):
+            if "utc" in c:
                 return None  # the statement's tz-aware carriers are *time inputs*; here the times are the data
             v = gen.times(val, c)
             kw[name] = v
@@ -205,9 +209,48 @@ def build(roles, vary=None, how=None, func=None):
     return kw
 
 
+def long_sequences(ctx) -> None:
+    """long plain sequences (lists / tuples with None or NaN) that also hold exact zeros"""
+    rng = ctx.rng
+    n = 10500
+    x = [None if k % 97 == 5 else (0.0 if k % 11 == 0 else -0.0 if k % 13 == 0 else float((k * 7) % 9) * 0.25) for k in range(n)]
+    t = gen.regular(n, 60)
+    z = [float(k % 50) for k in range(n)]
+    jobs = [("gross_range", "qartod.gross_range_test", {"fail_span": [-1, 2], "suspect_span": [0, 1.5]}, {}),
+            ("spike", "qartod.spike_test", {"suspect_threshold": 0.5, "fail_threshold": 1.5}, {}),
+            ("rate_of_change", "qartod.rate_of_change_test", {"threshold": 0.01}, {"tinp": gen.times(t)}),
+            ("flat_line", "qartod.flat_line_test", {"suspect_threshold": 120, "fail_threshold": 300, "tolerance": 0.3}, {"tinp": gen.times(t)}),
+            ("attenuated", "qartod.attenuated_signal_test", {"suspect_threshold": 0.8, "fail_threshold": 0.2, "test_period": 300, "min_obs": 2},
+             {"tinp": gen.times(t)}),
+            ("density_inversion", "qartod.density_inversion_test", {"suspect_threshold": 0.1, "fail_threshold": -0.6}, {"zinp": gen.arr(z)}),
+            ("climatology", "qartod.climatology_test", {"config": [{"tspan": [1, 12], "period": "month", "vspan": [0.25, 1.5], "fspan": [0, 1.75]}]},
+             {"tinp": gen.times(t), "zinp": gen.arr(z)})]
+    for mode, func, params, aux in jobs:
+        base = client.invoke(func, {"inp": gen.arr(x), **params, **aux})
+        if base.kind != "return":
+            ctx.violation(f"C15:baseline-raised:{func}:{base.exc_type}@{base.where}", {"kind": "carrier-group", "mode": mode, "case": "long sequence"})
+            continue
+        want = base.flags.reshape(-1).tolist()
+        for how in ("list-none", "tuple-none", "list-nan", "tuple-nan", "object"):
+            o = client.invoke(func, {"inp": dcar(x, how), **params, **aux})
+            ctx.count("c15.members_compared")
+            ctx.count("c15.long_sequence_members")
+            ctx.case(f"long-sequence|{mode}|{how}")
+            got = None if o.kind != "return" else o.flags.reshape(-1).tolist()
+            if got != want:
+                diff = [i for i in range(n) if got is None or got[i] != want[i]][:10]
+                ctx.violation(f"C15:{how}:flags-differ:{func}:long-sequence",
+                              {"kind": "carrier-group", "mode": mode, "carrier": how, "case": f"{n} values with None every 97th and zeros",
+                               "first_differing_positions": diff, "baseline_there": [want[i] for i in diff],
+                               "observed_there": None if got is None else [got[i] for i in diff], "observed": o.brief() if got is None else None})
+    _ = rng
+
+
 def run(ctx) -> None:
     rng = ctx.rng
     ctx.require("c15.groups", 200)
+    if ctx.shard == 0:
+        long_sequences(ctx)
     ctx.require("c15.members_compared", 2000)
     for _ in range(ctx.pick(45, 600)):
         for mode, func, roles in cases(rng):
